@@ -173,6 +173,11 @@ func c05OnlyTag55799(k refcose.Kind, wire []byte) bool {
 	if err != nil {
 		return false
 	}
+	if k != refcose.KProtected && k != refcose.KUnprotected && root.Major == 6 && root.Arg == 55799 {
+		// F9 is about labels and values inside a protected header (and the bare header decoders); a
+		// self-described-CBOR wrapper around a whole message is another matter (refused today)
+		return false
+	}
 	if rc.StripTag(&root, 55799) == 0 {
 		return false
 	}
